@@ -2,6 +2,7 @@ package sim
 
 import (
 	"encoding/json"
+	"errors"
 	"fmt"
 	"io"
 	"log"
@@ -187,7 +188,7 @@ func TestCrashChild(t *testing.T) {
 	log.SetOutput(io.Discard)
 	uuid.SetRand(&seedReader{state: mix(seed, 4242)}) // same ids, same page layout, same system calls in every run of a history
 	ops := crashWorkload(seed, nOps)
-	st, hc, _, err := inlineStore(dir)
+	st, hc, w, err := inlineStore(dir)
 	if err != nil {
 		say("CHILD-ERROR open: %v", err)
 		os.Exit(5)
@@ -198,18 +199,30 @@ func TestCrashChild(t *testing.T) {
 		os.Exit(5)
 	}
 	say("INIT-DONE %s", tok)
+	// an operation is acknowledged at the instant the store publishes its reply (that is when a real client would
+	// learn about it), not when the handler returns
+	cur := -1
+	storeConn := w.Conns()[0]
+	w.Observer = func(ev nats.BusEvent) {
+		if ev.Kind == "publish" && ev.Conn == storeConn && strings.HasPrefix(ev.Op.Subject, "_INBOX.") && cur >= 0 {
+			if len(ev.Op.Data) == 0 {
+				say("ACK %d", cur)
+			} else {
+				say("NACK %d %s", cur, ev.Op.Data)
+			}
+		}
+	}
 	for i, op := range ops {
+		cur = i
 		var err error
 		if op.Edge {
 			err = client.SendEdgePoints(hc, op.Node, op.Parent, append(data.Points(nil), op.Pts...), true)
 		} else {
 			err = client.SendNodePoints(hc, op.Node, append(data.Points(nil), op.Pts...), true)
 		}
-		if err != nil {
+		if err != nil && (errors.Is(err, nats.ErrTimeout) || errors.Is(err, nats.ErrNoResponders)) {
 			say("NACK %d %v", i, err)
-			continue
 		}
-		say("ACK %d", i)
 	}
 	say("DONE")
 	os.Exit(0) // no clean close: the parent kills or the process just ends; either way nothing is flushed on purpose
